@@ -257,3 +257,5 @@ func (c *Ctx) MustDiag() map[*ssa.Function]bool {
 	}
 	return res
 }
+
+func isErrorType(t types.Type) bool { return t.String() == "error" }
